@@ -23,7 +23,7 @@ CHECKS = {
          "satisfying MaskLaws; sensible_laws/neon_laws prove the laws for the u32 bitmask and the NEON nibble mask; swar_find_sat covers "
          "the SWAR code for any word size using has_needle_complete (no false negatives of the has_zero_byte trick); C01_backend/"
          "C01_dispatch lift this through the short-haystack routing of every backend and every CPU detection outcome, and show every "
-         "load in bounds and aligned when marked aligned.",
+         "load in bounds and aligned when marked aligned. C01_raw / C01_raw_inside: the raw-pointer forms return None when start >= end (also for an inverted range) and otherwise an index inside [start, end) that is the first match of the range, with every load inside the range.",
     design_ref="DESIGN.md section 6 (C01)", note=_MEM_NOTE,
     technique="Coq proof: loop invariants over head chunk / unrolled aligned loop / vector loop / overlapping tail, parametric in width, unroll, alignment and mask representation + trace-level differential correspondence",
  ),
